@@ -622,6 +622,11 @@ def judge_link(lc):
     _, o = run_link(lc)
     mismatch = any(i1 is True and i2 is True and d1 != d2 for d1, i1 in lc["left"]["nodes"] for d2, i2 in lc["right"]["nodes"])
     form = "%s-%s" % (lc["left"]["form"], lc["right"]["form"])
+    # several initialised senders whose widths ADD UP to the width of an initialised receiver: a legal fan-in, which the pairwise
+    # link-time check of HEAD refuses (open finding C03 link:initialised-fan-in-rejected): neither outcome is demanded here
+    if mismatch and len(lc["left"]["nodes"]) > 1 and all(i is True for _, i in lc["left"]["nodes"]) and \
+            all(i2 is not True or sum(d for d, _ in lc["left"]["nodes"]) == d2 for d2, i2 in lc["right"]["nodes"]):
+        return None
     # nodes created with declared dimensions but never run: the construction is legal when every receiver whose dimension is
     # known gets exactly that many features from the senders (all of them feed it, side by side); an illegal one may be refused
     # early or late, nothing is demanded
